@@ -51,7 +51,8 @@ def gen_ops(tier, rng):
         ops.append((f"ver default {o} {d} {p} {rng.choice(sizes[:12])} {rng.randrange(1, 1<<30)} {rng.randrange(d+p)} 0 77", {"cat": "ver", "p": p}))
         order = list(range(d)); rng.shuffle(order)
         ops.append((f"idx {o} {d} {p} {rng.choice(sizes[:17])} {rng.randrange(1, 1<<30)} {lst(order)}", {"cat": "idx", "p": p}))
-        ops.append((f"idx {o} 2 13 {rng.choice([2752, 2752*2+40, 65536+40, 1048616])} {rng.randrange(1, 1<<30)} 0,1", {"cat": "idx-codegen", "p": 13}))
+        for size in ([2752 * 2 + 40, 65536 + 40] if "gfni-" in o or o in ("-", "g=1", "nosimd") else [rng.choice([2752, 2752*2+40, 65536+40, 1048616])]):
+            ops.append((f"idx {o} 2 13 {size} {rng.randrange(1, 1<<30)} 0,1", {"cat": "idx-codegen", "p": 13}))
         S = sorted(rng.sample(range(d), rng.randint(1, d)))
         ops.append((f"upd {o} {d} {p} {rng.choice(sizes[:17])} {rng.randrange(1, 1<<30)} {lst(S)} -", {"cat": "upd", "p": p}))
     # the block planners of the generated-kernel paths (AVX2 and GFNI): more than 10 inputs AND at least as many outputs, output
